@@ -68,6 +68,8 @@ ReqCrlOk(a, o) ==
                          Has(o.revoked[i].exts, OidInvDate) /\ Ext(o.revoked[i].exts, OidInvDate).kind = "invdate" =>
                            ReqTimeGeneralized(Ext(o.revoked[i].exts, OidInvDate).time) /\ ReqTimeShape(Ext(o.revoked[i].exts, OidInvDate).time)>>,
   <<"C08.no_other_crl_extension", \A i \in DOMAIN x : x[i].oid \in {OidAki, OidCrlNumber} \cup (IF p.idp.k = "some" THEN {OidIdp} ELSE {})>>,
+  (* the returned object reports the parameters it was made from (where the driver recorded them) and its PEM is its DER *)
+  <<"C08.params_echo", "paramsEcho" \in DOMAIN o => o.paramsEcho /\ o.pemEqDer>>,
   <<"C08.openssl_decodes", o.opensslOk>>,
   <<"C08.x509parser_decodes", o.x509pOk>>,
   <<"C05.crl_v2", o.version = 2>>,
